@@ -189,7 +189,7 @@ func c05Chain(r *report.Run, b harness.Backend, seed int64, n int, viaControl bo
 		l.viaControl = ctrl
 	}
 	initial := l.gen
-	kinds := []string{"full-ok", "partial-ok", "partial-ok", "full-missing-path", "full-unreadable", "full-novalidation", "full-ok", "full-back-ok", "full-back-ok"}
+	kinds := []string{"full-ok", "partial-ok", "partial-ok", "full-missing-path", "full-unreadable", "full-novalidation", "full-ok", "full-back-ok", "full-back-ok", "full-same-ok", "full-same-ok"}
 	var seq []string
 	for i := 0; i < n; i++ {
 		k := kinds[rng.Intn(len(kinds))]
@@ -225,7 +225,7 @@ func c05Chain(r *report.Run, b harness.Backend, seed int64, n int, viaControl bo
 }
 
 func runC05(r *report.Run) {
-	r.SetRule("every record of generation g carries the stamp g (TTL, A rdata, TXT, SOA serial); queries are TXT/MX/NS/referral/NXDOMAIN/wildcard/SOA so answer, authority and additional sections all carry stamps. (1) scheduled interleavings through the verif yield points: one query parked at each of its 7 points x a reload run to each of its 4 points or to completion x reload kinds {full ok, partial ok, missing path, unreadable, missing validation key, full/partial with a 1 ns reload timeout} x {cdb, rdb-v1, rdb-v2} x cache on/off; (2) sequential chains of mixed reloads (including switches back to the path served first, refreshed to a newer generation meanwhile), also with the successful reloads requested through reload/switchdb files in a watched control directory (completion observed as the removal of the file); (3) free-running stress (8 clients + reloader, race-detector build). Every recorded history (call/return times at the client boundary, one monotonic clock) is checked offline: (i) one generation per response, (ii) no older generation after a successful reload returned and none from the future, (iii) per-client monotonic, (iv) the target of a failed reload is never observed. non-trivial = scenario in which the query really was parked at its point while the reload ran; distinct by hook-point sequence")
+	r.SetRule("every record of generation g carries the stamp g (TTL, A rdata, TXT, SOA serial); queries are TXT/MX/NS/referral/NXDOMAIN/wildcard/SOA so answer, authority and additional sections all carry stamps. (1) scheduled interleavings through the verif yield points: one query parked at each of its 7 points x a reload run to each of its 4 points or to completion x reload kinds {full ok, partial ok, missing path, unreadable, missing validation key, full/partial with a 1 ns reload timeout} x {cdb, rdb-v1, rdb-v2} x cache on/off; (2) sequential chains of mixed reloads (including switches back to the path served first, refreshed to a newer generation meanwhile, and full reloads naming the path already served after its content changed), also with the successful reloads requested through reload/switchdb files in a watched control directory (completion observed as the removal of the file); (3) free-running stress (8 clients + reloader, race-detector build). Every recorded history (call/return times at the client boundary, one monotonic clock) is checked offline: (i) one generation per response, (ii) no older generation after a successful reload returned and none from the future, (iii) per-client monotonic, (iv) the target of a failed reload is never observed. non-trivial = scenario in which the query really was parked at its point while the reload ran; distinct by hook-point sequence")
 	r.Assume("generations increase along the workload and every attempted target generation is unique; a 5 s park timeout only classifies a point as 'not on this query's path', it never decides a verdict")
 	type childOut struct {
 		res *childResult
